@@ -303,6 +303,11 @@ package k8s
 // (the same fact, found from a known element of the old list)
 //@   ensures forall j {elemref(old(i.pods), j)} :: 0 <= j && j < old(len(i.pods)) ==> i.pods[j] == old(i.pods[j])
 //@   ensures base(i.pods) == old(base(i.pods)) || fresh(base(i.pods))
+// membership, stated so that callers need not look inside the lists: the pod is in, what was in stays in,
+// and the lists of other node infos (with a backing array of their own) are not disturbed
+//@   ensures podIn(pod, i)
+//@   ensures forall p *v1.Pod {old(podIn(p, i))} :: old(podIn(p, i)) ==> podIn(p, i)
+//@   ensures forall o *NodeInfo, p *v1.Pod {old(podIn(p, o))} :: allocated(o) && o != i && old(base(o.pods)) != old(base(i.pods)) && old(podIn(p, o)) ==> podIn(p, o)
 //@ func (*NodeInfo).SetNode(i, node)
 //@   requires i != nil
 //@   modifies i.node
@@ -312,9 +317,9 @@ package k8s
 // on it; entries are well-formed; entries without a node (pods of unlisted nodes) are dropped.
 //@ spec infoHasNode(m map[string]*NodeInfo) bool = forall s string :: has(m, s) ==> m[s] != nil && m[s].node != nil
 // every entry is an object of its own, made here, with a pod list of its own
-//@ spec infoOwn(m map[string]*NodeInfo) bool = forall s string :: has(m, s) ==> m[s] != nil && fresh(m[s]) && birth(m[s]) < now && (base(m[s].pods) == nil || fresh(base(m[s].pods))) && birth(base(m[s].pods)) < now
+//@ spec infoOwn(m map[string]*NodeInfo) bool = forall s string :: has(m, s) ==> m[s] != nil && fresh(m[s]) && birth(m[s]) < now && (base(m[s].pods) == nil || fresh(base(m[s].pods))) && birth(base(m[s].pods)) < now && (base(m[s].pods) == nil ==> len(m[s].pods) == 0)
 //@ spec infoSep(m map[string]*NodeInfo) bool = forall s string, t string :: has(m, s) && has(m, t) && s != t ==> m[s] != m[t] && (base(m[s].pods) == nil || base(m[s].pods) != base(m[t].pods))
-//@ spec podIn(p *v1.Pod, i *NodeInfo) bool = exists q :: 0 <= q && q < len(i.pods) && i.pods[q] == p
+//@ opaque spec podIn(p *v1.Pod, i *NodeInfo) bool = exists q :: 0 <= q && q < len(i.pods) && i.pods[q] == p
 //@ spec strIn(x string, l []string) bool = exists q :: 0 <= q && q < len(l) && l[q] == x
 //@ func CreateNodeNameToInfoMap(pods, nodes) (m)
 //@   requires podsOK(pods) && (forall i :: 0 <= i && i < len(nodes) ==> nodes[i] != nil)
